@@ -42,8 +42,13 @@ def web_registry(reg=None):
     c = reg['calls']
     c[id(util.extract_json)] = web.extract_json_contract
     c[id(util.validate_query_params)] = web.validate_query_params_contract
-    c[id(jsonutils.dumps)] = lambda I, a, k: (I.event('json.dumps', a[0]),
-                                             I.fresh('json', 'str'))[1]
+    def _dumps(I, a, k):
+        I.event('json.dumps', a[0])
+        r = I.fresh('json', 'str')
+        # the text is the serialisation of a[0]: loads(dumps(x)) == x (A-lib)
+        I.ghost.setdefault('json_provenance', {})[r.t.sexpr()] = a[0]
+        return r
+    c[id(jsonutils.dumps)] = _dumps
     c[id(encodeutils.to_utf8)] = lambda I, a, k: a[0]
     c[id(timeutils.utcnow)] = lambda I, a, k: Opaque('utcnow')
     c[id(util.pick_last_modified)] = lambda I, a, k: Opaque('last_modified')
